@@ -49,6 +49,35 @@ pub fn configs(tier: Tier) -> Vec<String> {
 
 pub fn scenarios(_cfg: &str) -> Vec<Vec<Ev>> {
     let e = Ev::new;
+    let mut v = base_scenarios();
+    // deep queues: n lockers parked behind a guard, interior ones cancelled, the lock handed down the queue
+    for (n, cancel, newest_first) in crate::hist::deep_queue_patterns(&[5, 6, 8]) {
+        let mut s = vec![e(TRY_LOCK, 0, 0)];
+        for i in 0..n {
+            s.push(e(CREATE, i, 0));
+            s.push(e(POLL, i, 0));
+        }
+        for c in &cancel {
+            s.push(e(DROP_FUT, *c, 0));
+        }
+        let rest = crate::hist::deep_rest(n, &cancel);
+        for round in 0..rest.len() {
+            s.push(e(DROP_GUARD, 0, 0));
+            if newest_first {
+                for i in rest.iter().rev() {
+                    s.push(e(POLL, *i, 1));
+                }
+            } else {
+                s.push(e(POLL, rest[round], 1));
+            }
+        }
+        v.push(s);
+    }
+    v
+}
+
+fn base_scenarios() -> Vec<Vec<Ev>> {
+    let e = Ev::new;
     vec![
         // drop a Notified future from the middle of the queue after a waker swap
         vec![e(TRY_LOCK, 0, 0), e(CREATE, 0, 0), e(POLL, 0, 0), e(CREATE, 1, 0), e(POLL, 1, 0), e(CREATE, 2, 0), e(POLL, 2, 0), e(POLL, 1, 1), e(DROP_GUARD, 0, 0), e(DROP_FUT, 0, 0), e(DROP_FUT, 1, 0)],
